@@ -60,6 +60,13 @@ type emitter struct {
 	// emitted, if it is labeled.
 	stmtLabel string
 
+	// operandDepth is greater than zero while emitting the operand of a
+	// selector, index, slice or address expression, or the operand of the
+	// left side of an assignment. The value of such an operand can refer to
+	// the element or field that it denotes; in every other position an
+	// index or selector expression of struct or array type is copied.
+	operandDepth int
+
 	// inURL indicates if the emitter is currently inside an *ast.URL node.
 	inURL bool
 
@@ -584,6 +591,12 @@ func (em *emitter) prepareFunctionBodyParameters(fn *ast.Func) {
 // goStmt indicates if the call node belongs to a 'go statement', while
 // deferStmt reports whether it must be deferred.
 func (em *emitter) emitCallNode(call *ast.Call, goStmt bool, deferStmt bool, toFormat ast.Format) ([]int8, []reflect.Type) {
+
+	// The arguments of a call are values, also when the call is an operand.
+	if depth := em.operandDepth; depth > 0 {
+		em.operandDepth = 0
+		defer func() { em.operandDepth = depth }()
+	}
 
 	funTi := em.ti(call.Func)
 
